@@ -33,10 +33,10 @@ MUTANTS = [
     # (mul computes the new scale with `*`, so registering mul_ mutates nothing: not a C13 break, but the operand is not updated: C05)
     M("c05-mul-inplace-registered", "C05", "break", [(OPS, "@register_qbytestensor_op([torch.ops.aten.mul])", "@register_qbytestensor_op([torch.ops.aten.mul, torch.ops.aten.mul_])")], "C05.R16"),
     M("c05-div-inplace-registered", "C05", "break", [(OPS, "@register_qbytestensor_op([torch.ops.aten.div])", "@register_qbytestensor_op([torch.ops.aten.div, torch.ops.aten.div_])")], "C05.R16"),
-    M("c13-neg-inplace-registered", "C13", "break", [(OPS, "@register_qbytestensor_op([torch.ops.aten.neg])", "@register_qbytestensor_op([torch.ops.aten.neg, torch.ops.aten.neg_])")], "C13.R3"),
+    M("c05-neg-inplace-registered", "C05", "break", [(OPS, "@register_qbytestensor_op([torch.ops.aten.neg])", "@register_qbytestensor_op([torch.ops.aten.neg, torch.ops.aten.neg_])")], "C05.R16"),
     # ---------------- C07 single rounding / accumulation
-    M("c07-act-scale-after-kernel", "C07", "break", [(FUNC, "torch.ops.quanto.qbytes_mm(input._data, other._data, input._scale * other._scale)", "torch.ops.quanto.qbytes_mm(input._data, other._data, other._scale) * input._scale")], None),
-    M("c07-weight-scale-after-kernel", "C07", "break", [(FUNC, "torch.ops.quanto.qbytes_mm(input._data, other._data, input._scale * other._scale)", "torch.ops.quanto.qbytes_mm(input._data, other._data, input._scale) * other._scale.t()")], None),
+    M("c07-act-scale-after-kernel", "C07", "break", [(FUNC, "torch.ops.quanto.qbytes_mm(input._data, other._data, output_scales).to(input._scale.dtype)", "torch.ops.quanto.qbytes_mm(input._data, other._data, other._scale) * input._scale")], None),
+    M("c07-weight-scale-after-kernel", "C07", "break", [(FUNC, "torch.ops.quanto.qbytes_mm(input._data, other._data, output_scales).to(input._scale.dtype)", "torch.ops.quanto.qbytes_mm(input._data, other._data, input._scale) * other._scale.t()")], None),
     M("c07-itemsize-route", "C07", "break", [(MM, "    if activations.dtype == torch.int8 or weights.dtype == torch.int8:", "    if activations.dtype.itemsize > 1:\n        mm_dtype = activations.dtype\n    elif activations.dtype == torch.int8 or weights.dtype == torch.int8:")], "C07.R3"),
     M("c05-itemsize-route", "C05", "break", [(MM, "    if activations.dtype == torch.int8 or weights.dtype == torch.int8:", "    if activations.dtype.itemsize > 1:\n        mm_dtype = activations.dtype\n    elif activations.dtype == torch.int8 or weights.dtype == torch.int8:")], "C05.R15"),
     M("c07-refactor-itemsize-guard", "C07", "refactor", [(MM, "    if activations.dtype == torch.int8 or weights.dtype == torch.int8:", "    if activations.dtype.itemsize == 1 and not activations.dtype.is_floating_point or weights.dtype == torch.int8:")]),
@@ -67,7 +67,7 @@ MUTANTS = [
     M("c08-exact-type-lookup", "C08", "break", [(QMOD, "    for cls in _QMODULE_TABLE:\n        if isinstance(module, cls):\n            qcls, qparams = _QMODULE_TABLE[cls]", "    for cls in _QMODULE_TABLE:\n        if type(module) is cls:\n            qcls, qparams = _QMODULE_TABLE[cls]")], None),
     M("c02-zp-half-trunc", "C02", "break", [(MAXOPT, "        zeropoint = torch.round(-rmin / scale).to(torch.int8)", "        zeropoint = (-rmin / scale + 0.5).to(torch.int8)")], "C02.R5"),
     M("c07-transpose-stale-axis", "C07", "break", [(OPS, "        out_axis = 0 if out_axis == -1 else -1", "        out_axis = 0 if out_axis == input.ndim - 1 else -1")], "C07.R7"),
-    M("c07-mm-via-kernel-linear-convention", "C07", "break", [(OPS, "            out_data = torch._int_mm(input._data, other._data)\n", "            return torch.ops.quanto.qbytes_mm(input._data, other._data.t(), input._scale * other._scale.t())\n            out_data = torch._int_mm(input._data, other._data)\n")], None),
+    M("c07-mm-via-kernel-linear-convention", "C07", "break", [(OPS, "            out_data = torch._int_mm(input._data.contiguous(), other._data.contiguous())\n", "            return torch.ops.quanto.qbytes_mm(input._data, other._data.t(), input._scale * other._scale.t())\n            out_data = torch._int_mm(input._data.contiguous(), other._data.contiguous())\n")], None),
     # ---------------- view() on operands (F27 / F28 reintroduced)
     M("c07-intmm-view-again", "C07", "break", [(MM, "out_data = torch._int_mm(activations.reshape(-1, in_features), weights)", "out_data = torch._int_mm(activations.view(-1, in_features), weights)")], "C07.R9"),
     M("c11-backward-view-again", "C11", "break", [(FUNC, "input.reshape(-1, in_features))", "input.view(-1, in_features))")], "C11.R8"),
